@@ -1,0 +1,25 @@
+//go:build verif
+
+// Package verifhook provides schedule-control points for the external verification
+// harness. Without the "verif" build tag every call is an empty inlinable function.
+package verifhook
+
+import "sync/atomic"
+
+var handler atomic.Pointer[func(point string, obj any)]
+
+// Set installs (or, with nil, removes) the function called at every instrumented point.
+func Set(h func(point string, obj any)) {
+	if h == nil {
+		handler.Store(nil)
+		return
+	}
+	handler.Store(&h)
+}
+
+// At marks an instrumented point; obj identifies the owning instance.
+func At(point string, obj any) {
+	if h := handler.Load(); h != nil {
+		(*h)(point, obj)
+	}
+}
